@@ -1028,10 +1028,93 @@ pub fn promise_race(
     Ok(Guarded::with_guard(JsValue::Object(result_promise), guard))
 }
 
+/// Is the value a promise that has not settled yet?
+fn is_pending_promise(value: &JsValue) -> bool {
+    if let JsValue::Object(obj) = value
+        && let ExoticObject::Promise(ref state) = obj.borrow().exotic
+    {
+        return state.borrow().status == PromiseStatus::Pending;
+    }
+    false
+}
+
+/// `p.then(on_fulfilled, on_rejected)` for every input (non-promises count as fulfilled),
+/// collected into an array: the building block of allSettled / any over pending inputs.
+fn then_each(
+    interp: &mut Interpreter,
+    guard: &Guard<JsObject>,
+    inputs: &[JsValue],
+    on_fulfilled: crate::value::NativeFn,
+    on_rejected: crate::value::NativeFn,
+) -> Result<JsValue, JsError> {
+    let on_fulfilled = interp.create_native_function_in(guard, "", on_fulfilled, 1);
+    let on_rejected = interp.create_native_function_in(guard, "", on_rejected, 1);
+    let mut mapped = Vec::with_capacity(inputs.len());
+    for input in inputs {
+        let is_promise = matches!(input, JsValue::Object(obj)
+            if matches!(obj.borrow().exotic, ExoticObject::Promise(_)));
+        let promise = if is_promise {
+            input.clone()
+        } else {
+            JsValue::Object(create_fulfilled_promise(interp, guard, input.clone()))
+        };
+        let derived = promise_then(
+            interp,
+            promise,
+            &[
+                JsValue::Object(on_fulfilled.cheap_clone()),
+                JsValue::Object(on_rejected.cheap_clone()),
+            ],
+        )?;
+        if let JsValue::Object(obj) = &derived.value {
+            guard.guard(obj.cheap_clone());
+        }
+        mapped.push(derived.value);
+    }
+    Ok(JsValue::Object(interp.create_array_from(guard, mapped)))
+}
+
+fn settled_element(
+    interp: &mut Interpreter,
+    status: &str,
+    key: &str,
+    value: JsValue,
+) -> Result<Guarded, JsError> {
+    let guard = interp.heap.create_guard();
+    let obj = interp.create_object(&guard);
+    let status_key = PropertyKey::String(interp.intern("status"));
+    let value_key = PropertyKey::String(interp.intern(key));
+    {
+        let mut obj_ref = obj.borrow_mut();
+        obj_ref.prototype = Some(interp.object_prototype.cheap_clone());
+        obj_ref.set_property(status_key, JsValue::String(status.into()));
+        obj_ref.set_property(value_key, value);
+    }
+    Ok(Guarded::with_guard(JsValue::Object(obj), guard))
+}
+
+fn allsettled_fulfilled_element(
+    interp: &mut Interpreter,
+    _this: JsValue,
+    args: &[JsValue],
+) -> Result<Guarded, JsError> {
+    let value = args.first().cloned().unwrap_or(JsValue::Undefined);
+    settled_element(interp, "fulfilled", "value", value)
+}
+
+fn allsettled_rejected_element(
+    interp: &mut Interpreter,
+    _this: JsValue,
+    args: &[JsValue],
+) -> Result<Guarded, JsError> {
+    let reason = args.first().cloned().unwrap_or(JsValue::Undefined);
+    settled_element(interp, "rejected", "reason", reason)
+}
+
 /// Promise.allSettled(iterable)
 pub fn promise_allsettled(
     interp: &mut Interpreter,
-    _this: JsValue,
+    this: JsValue,
     args: &[JsValue],
 ) -> Result<Guarded, JsError> {
     let iterable = args.first().cloned().unwrap_or(JsValue::Undefined);
@@ -1043,6 +1126,20 @@ pub fn promise_allsettled(
         let arr = interp.create_empty_array(&guard);
         let promise = create_fulfilled_promise(interp, &guard, JsValue::Object(arr));
         return Ok(Guarded::with_guard(JsValue::Object(promise), guard));
+    }
+
+    // Some inputs have not settled yet: wait for all of them.  Every input p becomes
+    // p.then(v => ({status: "fulfilled", value: v}), r => ({status: "rejected", reason: r})),
+    // which never rejects, and these are combined with Promise.all.
+    if promises.iter().any(is_pending_promise) {
+        let mapped = then_each(
+            interp,
+            &guard,
+            &promises,
+            allsettled_fulfilled_element,
+            allsettled_rejected_element,
+        )?;
+        return promise_all(interp, this, &[mapped]);
     }
 
     // Pre-intern keys
@@ -1098,7 +1195,7 @@ pub fn promise_allsettled(
 /// Promise.any(iterable)
 pub fn promise_any(
     interp: &mut Interpreter,
-    _this: JsValue,
+    this: JsValue,
     args: &[JsValue],
 ) -> Result<Guarded, JsError> {
     let iterable = args.first().cloned().unwrap_or(JsValue::Undefined);
@@ -1157,7 +1254,37 @@ pub fn promise_any(
         return Ok(Guarded::with_guard(JsValue::Object(promise), guard));
     }
 
-    // Return pending promise
-    let promise = create_promise(interp, &guard);
-    Ok(Guarded::with_guard(JsValue::Object(promise), guard))
+    // Not decided yet: wait.  With fulfilment and rejection swapped, Promise.all over the
+    // inputs rejects with the first fulfilment value and fulfils with all the reasons:
+    // swap the outcome back.
+    let mapped = then_each(interp, &guard, &promises, any_throw, any_identity)?;
+    let all = promise_all(interp, this, &[mapped])?;
+    let on_all_rejected = interp.create_native_function_in(&guard, "", any_throw, 1);
+    let on_first_fulfilled = interp.create_native_function_in(&guard, "", any_identity, 1);
+    promise_then(
+        interp,
+        all.value.clone(),
+        &[
+            JsValue::Object(on_all_rejected),
+            JsValue::Object(on_first_fulfilled),
+        ],
+    )
+}
+
+fn any_throw(
+    interp: &mut Interpreter,
+    _this: JsValue,
+    args: &[JsValue],
+) -> Result<Guarded, JsError> {
+    let value = args.first().cloned().unwrap_or(JsValue::Undefined);
+    Err(JsError::thrown(Guarded::from_value(value, &interp.heap)))
+}
+
+fn any_identity(
+    interp: &mut Interpreter,
+    _this: JsValue,
+    args: &[JsValue],
+) -> Result<Guarded, JsError> {
+    let value = args.first().cloned().unwrap_or(JsValue::Undefined);
+    Ok(Guarded::from_value(value, &interp.heap))
 }
